@@ -45,8 +45,9 @@ fn nonquery_hex() -> Vec<(String, String)> {
 /// The full single-symbol alphabet: (label, symbol).
 pub fn full_alphabet() -> Vec<(String, Sym)> {
     let mut v: Vec<(String, Sym)> = vec![];
-    for src in 0..3usize {
-        for tl in [0usize, 1, 2, 8, 32] {
+    for src in [0usize, 1, 2, 4, 5] {
+        // sources 4 and 5 (IPv4-mapped, scoped link-local) with two id lengths
+        for tl in if src < 3 { vec![0usize, 1, 2, 8, 32] } else { vec![2usize, 8] } {
             let t = format!("tid={}", tid_hex(tl));
             v.push((format!("ping src{src} tid{tl}"), vec![(src, format!("ping {t}"))]));
             for w in ["-", "n4", "n6", "both", "n6n4", "n6n6", "n4n4", "n4zz", "empty"] {
